@@ -45,44 +45,95 @@ func (tempNetErr) Error() string   { return "i/o timeout" }
 func (tempNetErr) Timeout() bool   { return true }
 func (tempNetErr) Temporary() bool { return true }
 
+// SecretMarker is put into every error text that must never reach a client
+// (texts of errors without SMTP annotations, wrapped causes).
+const SecretMarker = "INTERNAL-DETAIL-7f3a"
+
 // MkErr builds an error value of the requested class from the repository's
-// own primitives. variant selects among equivalent constructions. Every
-// value is self-consistent: along its Unwrap chain all Temporary() markers
-// and SMTP code classes agree.
+// own primitives. variant selects a base construction (SMTP-annotated,
+// temporary-marked, network error, plain) and a wrapping pattern (field
+// wrappers, %w wrappers, extra consistent temporary markers) nested up to
+// depth 4. Every value is self-consistent: along its Unwrap chain all
+// Temporary() markers and SMTP code classes agree or are absent. Annotated
+// errors carry "tempfail"/"permfail" in their client-facing text so that a
+// reply can be matched with the class that was injected; unannotated texts
+// and wrapped causes carry SecretMarker.
 func MkErr(o Outcome, variant int, where string) error {
-	switch o {
-	case OK:
+	if o == OK {
 		return nil
+	}
+	if variant < 0 {
+		variant = -variant
+	}
+	base := mkBaseErr(o, variant%8, where)
+	temp := o == Temp
+	switch (variant / 8) % 6 {
+	case 1:
+		return exterrors.WithFields(base, map[string]interface{}{"where": where})
+	case 2:
+		return fmt.Errorf("context %s: %w", SecretMarker, base)
+	case 3:
+		return exterrors.WithFields(fmt.Errorf("outer %s: %w", SecretMarker, exterrors.WithFields(base, map[string]interface{}{"inner": 1})), map[string]interface{}{"outer": 2})
+	case 4:
+		if o != Unclass {
+			return exterrors.WithTemporary(exterrors.WithFields(base, map[string]interface{}{"x": where}), temp)
+		}
+		return fmt.Errorf("a: %w", fmt.Errorf("b: %w", fmt.Errorf("c %s: %w", SecretMarker, base)))
+	case 5:
+		if o != Unclass {
+			return fmt.Errorf("w: %w", exterrors.WithTemporary(fmt.Errorf("v: %w", base), temp))
+		}
+	}
+	return base
+}
+
+func mkBaseErr(o Outcome, k int, where string) error {
+	cause := errors.New("cause " + SecretMarker)
+	switch o {
 	case Temp:
-		switch variant % 5 {
-		case 4:
-			return &exterrors.SMTPError{Code: 452, EnhancedCode: exterrors.EnhancedCode{4, 2, 2}, Message: "переполнен (non-ASCII text) " + where, TargetName: "scripted"}
+		switch k {
 		case 0:
-			return &exterrors.SMTPError{Code: 451, EnhancedCode: exterrors.EnhancedCode{4, 3, 0}, Message: "scripted temporary failure " + where, TargetName: "scripted"}
+			return &exterrors.SMTPError{Code: 451, EnhancedCode: exterrors.EnhancedCode{4, 3, 0}, Message: "tempfail scripted " + where, TargetName: "scripted", Err: cause}
 		case 1:
-			return exterrors.WithTemporary(errors.New("scripted marked-temporary "+where), true)
+			return exterrors.WithTemporary(errors.New("marked-temporary "+SecretMarker+" "+where), true)
 		case 2:
 			return &net.OpError{Op: "read", Net: "tcp", Err: tempNetErr{}}
+		case 3:
+			return &exterrors.SMTPError{Code: 421, EnhancedCode: exterrors.EnhancedCode{4, 4, 2}, Message: "tempfail scripted 421 " + where, Reason: "reason " + SecretMarker}
+		case 4:
+			return &exterrors.SMTPError{Code: 452, EnhancedCode: exterrors.EnhancedCode{4, 2, 2}, Message: "tempfail переполнен (non-ASCII text) " + where, TargetName: "scripted"}
+		case 5:
+			return &exterrors.SMTPError{Code: 450, EnhancedCode: exterrors.EnhancedCode{4, 7, 1}, Message: "tempfail with U+0080 [\u0080] and U+00A0 [\u00a0] " + where}
+		case 6:
+			return &exterrors.SMTPError{Code: 451, EnhancedCode: exterrors.EnhancedCode{4, 0, 0}, Message: "tempfail first line\nsecond line " + where, CheckName: "scripted"}
 		default:
-			return exterrors.WithFields(&exterrors.SMTPError{Code: 421, EnhancedCode: exterrors.EnhancedCode{4, 4, 2}, Message: "scripted 421 " + where}, map[string]interface{}{"where": where})
+			return &exterrors.SMTPError{Code: 451, EnhancedCode: exterrors.EnhancedCode{4, 4, 1}, Message: "tempfail scripted misc " + where, Misc: map[string]interface{}{"detail": SecretMarker}}
 		}
 	case Perm:
-		switch variant % 4 {
-		case 3:
-			return &exterrors.SMTPError{Code: 550, EnhancedCode: exterrors.EnhancedCode{5, 1, 1}, Message: "ящик не найден (non-ASCII text) " + where, TargetName: "scripted"}
+		switch k {
 		case 0:
-			return &exterrors.SMTPError{Code: 550, EnhancedCode: exterrors.EnhancedCode{5, 1, 1}, Message: "scripted permanent failure " + where, TargetName: "scripted"}
+			return &exterrors.SMTPError{Code: 550, EnhancedCode: exterrors.EnhancedCode{5, 1, 1}, Message: "permfail scripted " + where, TargetName: "scripted", Err: cause}
 		case 1:
-			return exterrors.WithTemporary(errors.New("scripted marked-permanent "+where), false)
+			return exterrors.WithTemporary(errors.New("marked-permanent "+SecretMarker+" "+where), false)
+		case 2:
+			return &exterrors.SMTPError{Code: 554, EnhancedCode: exterrors.EnhancedCode{5, 7, 1}, Message: "permfail scripted 554\nsecond line " + where}
+		case 3:
+			return &exterrors.SMTPError{Code: 550, EnhancedCode: exterrors.EnhancedCode{5, 1, 1}, Message: "permfail ящик не найден (non-ASCII text) " + where, TargetName: "scripted"}
+		case 4:
+			return &exterrors.SMTPError{Code: 553, EnhancedCode: exterrors.EnhancedCode{5, 1, 3}, Message: "permfail with U+0080 [\u0080] " + where}
+		case 5:
+			return &exterrors.SMTPError{Code: 552, EnhancedCode: exterrors.EnhancedCode{5, 3, 4}, Message: "permfail too big " + where, Reason: "reason " + SecretMarker}
 		default:
-			return exterrors.WithFields(&exterrors.SMTPError{Code: 554, EnhancedCode: exterrors.EnhancedCode{5, 7, 1}, Message: "scripted 554\nsecond line " + where}, map[string]interface{}{"where": where})
+			return &exterrors.SMTPError{Code: 550, EnhancedCode: exterrors.EnhancedCode{5, 7, 0}, Message: "permfail policy " + where, CheckName: "scripted", Misc: map[string]interface{}{"detail": SecretMarker}}
 		}
 	default:
-		switch variant % 2 {
+		switch k % 3 {
 		case 0:
-			return errors.New("scripted unclassified error " + where)
+			return errors.New("unclassified " + SecretMarker + " " + where)
+		case 1:
+			return fmt.Errorf("wrapped %s: %w", SecretMarker, errors.New("unclassified inner "+where))
 		default:
-			return fmt.Errorf("wrapped: %w", errors.New("scripted unclassified inner "+where))
+			return exterrors.WithFields(errors.New("unclassified with fields "+SecretMarker), map[string]interface{}{"where": where})
 		}
 	}
 }
